@@ -13,7 +13,7 @@
     different value; [C08_range_refuted] exhibits it on the model, and the repository's own test
     [can_resolve_enum] pins the behaviour (Item0 = -2 on u32), so it is recorded, not repaired. *)
 From Coq Require Import List NArith ZArith Bool String.
-From PyxisModel Require Import Base Grammar SemTypes Registry Sem RustLayout EnumLemmas WholeBuild.
+From PyxisModel Require Import Base Grammar SemTypes Registry Sem RustLayout EnumLemmas WholeBuild Sexp Emit EmitReaders EmitShape.
 Import ListNotations.
 Local Open Scope Z_scope.
 
@@ -93,3 +93,18 @@ Proof.
   - eapply align_of_ext; eauto.
 Qed.
 Print Assumptions C08_whole_build.
+
+(** ** the emitted enum: what [build_enum] prints, read back by the readers of EmitReaders.v
+    ([enum_shape]: name, visibility, the [repr] type tokens of the base type, one variant per case with
+    its discriminant literal, [#[default]] exactly on the default variant, the derive list), followed by
+    the size check with the resolved size *)
+Theorem C08_emitted_enum_shape : forall p size v ed items,
+  build_enum p size v ed = Ok items ->
+  exists name e checks rest,
+    path_last p = Some name /\
+    items = e :: checks ++ rest /\
+    enum_shape name v ed e /\
+    size_check_shape name size checks /\
+    Forall is_impl_or_const rest.
+Proof. exact build_enum_shape. Qed.
+Print Assumptions C08_emitted_enum_shape.
